@@ -84,8 +84,8 @@ CONFIG = {
     ],
 }
 
-TOTALS = {"quick": {"docs": 1000, "rich": 1000, "nexml": 320, "numeric": 400},
-          "thorough": {"docs": 30000, "rich": 30000, "nexml": 8000, "numeric": 8000}}
+TOTALS = {"quick": {"docs": 1000, "rich": 1000, "nexml": 320, "numeric": 400, "multi": 480},
+          "thorough": {"docs": 30000, "rich": 30000, "nexml": 8000, "numeric": 8000, "multi": 10000}}
 
 KINDS = ("data", "strio", "file", "path")
 MATRIX_CLASS = {"dna": "DnaCharacterMatrix", "rna": "RnaCharacterMatrix", "protein": "ProteinCharacterMatrix",
@@ -577,6 +577,23 @@ def check_case(ctx, case):
         run.src.close()
 
 
+def perturb_heap(mode, seed):
+    """Unrelated allocations between two reads: a few hundred Annotation objects (the size class the readers allocate
+    for metadata) are created and released in ascending / shuffled order, so that the allocator hands out the freed
+    blocks in another address order to the next read.  Results that depend on object addresses (iteration over sets of
+    identity-hashed objects) then differ between two reads of the same text."""
+    import random
+    from dendropy.datamodel.basemodel import Annotation
+    junk = [Annotation(name="x%d" % i, value=i) for i in range(300)]
+    order = list(range(300))
+    if mode == "shuffle":
+        random.Random(seed).shuffle(order)
+    elif mode == "alternate":
+        order = order[::2] + order[1::2]
+    for i in order:
+        junk[i] = None
+
+
 def attempt(fn):
     try:
         with warnings.catch_warnings():
@@ -627,6 +644,21 @@ def _check(run):
     content = run.case["doc"].get("content") if schema != "nexml" else None
     if content and content_applicable(opts):
         check_content(run, base)
+
+    # -- reading again (fresh namespace, unrelated allocations in between) gives the identical observation ---------
+    for mode in ("reverse", "shuffle", "alternate"):
+        perturb_heap(mode, plan["pick"])
+        route = "TreeList.get(again)"
+        again = run.call(route, lambda: dendropy.TreeList.get(data=text, schema=schema, **dict(
+            {"taxon_namespace": run.new_namespace()} if (run.shared is not None or plan.get("prior")) else {}, **opts)))
+        got = Obs(ctx, again, route)
+        if got.trees != base.trees:
+            k = [i for i in range(min(len(got.trees), n)) if got.trees[i] != base.trees[i]]
+            ctx.fail("two_reads_of_one_text_give_identical_observations", "C13.rereading:TreeList.get",
+                     "second read (after %s allocations) differs: %s; %s" % (
+                         mode, first_diff(got.trees[k[0]], base.trees[k[0]]) if k else "tree count", run.where()))
+            break
+    perturb_heap("shuffle", plan["pick"] + 1)
 
     # -- source kinds ----------------------------------------------------------------------------------------------
     for kind in KINDS[1:]:
@@ -774,6 +806,7 @@ def _check(run):
                   "read(collection_offset=%d, tree_offset=%d) returned %r; %s" % (i, j, n3, run.where()))
 
     # -- the iterator ----------------------------------------------------------------------------------------------
+    perturb_heap("reverse", plan["pick"])
     yk = plan["ykinds"]
     ctx.cls("yield_kinds:%s+%s" % tuple(yk))
     files = [src.item(yk[0]), src.item(yk[1])]
@@ -945,7 +978,191 @@ def check_tree_array(run, n, sizes):
                          i, type(err).__name__, err, run.where()))
 
 
-SUBCHECKS = {"docs": check_case, "rich": check_case, "nexml": check_case, "numeric": check_case}
+@st.composite
+def multi_cases(draw, large=False):
+    """2-3 DIFFERENT sources of one schema read in one call (or the same source listed twice)."""
+    plan = {"shared": draw(st.booleans()), "tree_offset": draw(st.sampled_from([0, 1, 1, 2])),
+            "all_streams": draw(st.integers(0, 2)) == 0, "repeat": draw(st.integers(0, 3)) == 0,
+            "kinds": [draw(st.sampled_from(KINDS[1:])) for _ in range(3)],
+            "array_cfg": {"ignore_edge_lengths": draw(st.booleans()), "ignore_node_ages": draw(st.booleans()),
+                          "use_tree_weights": draw(st.sampled_from([True, True, False])),
+                          "check_ultrametricity": draw(st.booleans())},
+            "rooting": draw(st.sampled_from(["force-rooted", "force-unrooted", "force-rooted", None]))}
+    family = draw(st.sampled_from(["nexml", "nexml", "newick", "newick", "nexus"]))
+    if family == "nexml":
+        docs_ = draw(c13_docs.nexml_families(max_files=3))
+        opts = draw(nexml_options())
+    else:
+        opts = draw(newick_options())
+        if plan["rooting"]:
+            opts["rooting"] = plan["rooting"]      # mostly one rooting state: a TreeArray takes only one
+        nd = draw(st.integers(2, 3))
+        if family == "newick":
+            gen = st.one_of(c13_docs.rich_newick_docs(max_taxa=5, max_trees=3), c13_docs.ultrametric_newick_docs(max_trees=3),
+                            c13_docs.numeric_newick_docs(max_taxa=5, max_trees=3))
+        else:
+            gen = st.one_of(c13_docs.ultrametric_newick_docs(max_trees=3, nexus=True),
+                            c13_docs.rich_nexus_docs(max_taxa=4, max_trees=2, max_blocks=2, max_chars=4))
+        docs_ = []
+        for _ in range(nd):
+            d = draw(gen)
+            fit_options(d, opts)
+            docs_.append({"text": d["text"], "schema": d["schema"]})
+    if plan["repeat"]:
+        docs_ = [docs_[0], docs_[0]]
+    return {"docs": docs_, "opts": opts, "plan": plan}
+
+
+def check_multi(ctx, case):
+    """Several sources in one call: Tree.yield_from_files(files=[a, b, ..]) and TreeArray.read_from_files(files=[a, b,
+    ..], tree_offset=k) against reading the sources one after the other (TreeList.read x n into one list, TreeArray.read
+    x n into one array, add_trees of the listed trees).  A source is a source whatever its name: unnamed streams, open
+    files, paths, the same path listed twice."""
+    import dendropy
+    docs_, opts, plan = case["docs"], dict(case["opts"]), case["plan"]
+    schema = docs_[0]["schema"]
+    srcs = []
+    for d in docs_:
+        same = [x for x in srcs if x.text == d["text"]] if plan["repeat"] else []
+        srcs.append(same[0] if same else Sources(d["text"]))
+    kinds = ["strio"] * len(docs_) if plan["all_streams"] else \
+        (["path"] * len(docs_) if plan["repeat"] else plan["kinds"][:len(docs_)])
+    cfg = plan["array_cfg"]
+    akw = {"ignore_edge_lengths": cfg["ignore_edge_lengths"], "ignore_node_ages": cfg["ignore_node_ages"],
+           "use_tree_weights": cfg["use_tree_weights"]}
+    if not cfg["check_ultrametricity"]:
+        akw["ultrametricity_precision"] = False
+
+    def where():
+        return "schema=%s opts=%r plan=%r texts=%r" % (schema, opts, dict(plan, kinds=kinds), [d["text"][:700] for d in docs_])
+
+    def new_ns():
+        return dendropy.TaxonNamespace(is_case_sensitive=bool(opts.get("case_sensitive_taxon_labels")))
+
+    shared = new_ns() if plan["shared"] else None
+
+    def read_all(k=None, target=None):
+        """the sources one after the other into ONE list; per-source slices"""
+        tl = dendropy.TreeList(taxon_namespace=target if target is not None else (shared if shared is not None else new_ns()))
+        parts = []
+        for d in docs_:
+            before = len(tl)
+            if k:
+                tl.read(data=d["text"], schema=schema, tree_offset=k, **opts)
+            else:
+                tl.read(data=d["text"], schema=schema, **opts)
+            parts.append((before, len(tl)))
+        return tl, parts
+
+    try:
+        with warnings.catch_warnings():
+            warnings.simplefilter("ignore")
+            ctx.cls("multi:%s:%dsources%s" % (schema, len(docs_), ":same_source_twice" if plan["repeat"] else ""))
+            ctx.cls("multi:kinds:%s" % "+".join(kinds))
+            res, err = attempt(read_all)
+            if err is not None:
+                ctx.cls("multi:reference_rejects:%s" % type(err).__name__)
+                return
+            ref_list, parts = res
+            ref = Obs(ctx, ref_list, "TreeList.read x n")
+            sizes_known = all("sizes" in d for d in docs_)
+            # extra oracle for the hand-written NeXML files: the leaves carry the labels their file assigns to the ids
+            if all("leaf_labels" in d for d in docs_):
+                want = [ll for d in docs_ for ll in d["leaf_labels"]]
+                got = [[nd[1] for nd in o["nodes"] if nd[0] == 0] for o in ref.trees]
+                ctx.check(got == want, "document_content", "C13.content:multi_leaf_labels",
+                          lambda: "TreeList.read x n leaf labels %r, the files say %r; %s" % (got, want, where()))
+            single_collection = sizes_known and all(len(d["sizes"]) == 1 for d in docs_) or schema == "newick"
+            k = plan["tree_offset"] if single_collection else 0
+
+            # -- the iterator over all sources ------------------------------------------------------------------
+            files = [s_.item(kd) for s_, kd in zip(srcs, kinds)]
+            res, err = attempt(lambda: list(dendropy.Tree.yield_from_files(
+                files=files, schema=schema, **dict({"taxon_namespace": shared} if shared is not None else {}, **opts))))
+            if err is not None:
+                ctx.fail("iterator_over_several_sources_equals_reading_them_in_turn", "C13.multi:route_raises:yield_from_files:%s" % type(err).__name__,
+                         "yield_from_files raised %s: %s although the sources read one after the other; %s" % (type(err).__name__, str(err)[:300], where()))
+                return
+            y = Obs(ctx, res, "yield_from_files(multi)")
+            if y.trees != ref.trees:
+                bad = [i for i in range(min(len(y.trees), len(ref.trees))) if y.trees[i] != ref.trees[i]]
+                ctx.fail("iterator_over_several_sources_equals_reading_them_in_turn", "C13.multi:differs:yield_from_files",
+                         "%s; %s" % ("tree %d: %s" % (bad[0], first_diff(y.trees[bad[0]], ref.trees[bad[0]])) if bad else
+                                     "%d trees instead of %d" % (len(y.trees), len(ref.trees)), where()))
+                return
+            if shared is not None:
+                same = all(len(a) == len(b) and all(p is q for p, q in zip(a, b)) for a, b in zip(y.taxa, ref.taxa))
+                ctx.check(same, "shared_namespace_same_taxon_objects", "C13.multi:taxon_identity:yield_from_files",
+                          lambda: "the iterator attached trees to other Taxon objects than TreeList.read x n; %s" % where())
+            # one Taxon per label inside one route
+            by_label = {}
+            ok = True
+            for taxa in y.taxa:
+                for t in taxa:
+                    if t is not None and by_label.setdefault(t.label, t) is not t:
+                        ok = False
+            ctx.check(ok, "one_taxon_per_label", "C13.multi:duplicate_taxa:yield_from_files",
+                      lambda: "the iterator delivered two Taxon objects with one label; %s" % where())
+
+            # -- TreeArray: all sources in one call / one call per source / the listed trees ---------------------
+            ctx.cls("multi:treearray_cfg:ignore_edge_lengths=%s,ignore_node_ages=%s" % (cfg["ignore_edge_lengths"], cfg["ignore_node_ages"]))
+            ctx.cls("multi:tree_offset=%d" % k)
+
+            def reference():
+                tl, pp = read_all()
+                ta = dendropy.TreeArray(taxon_namespace=tl.taxon_namespace, **akw)
+                for a, b in pp:
+                    ta.add_trees(tl[a + k:b] if b - a > k else [])
+                return ta
+
+            def in_one_call():
+                ta = dendropy.TreeArray(taxon_namespace=shared if shared is not None else new_ns(), **akw)
+                ta.read_from_files(files=[s_.item(kd) for s_, kd in zip(srcs, kinds)], schema=schema,
+                                   **dict({"tree_offset": k} if k else {}, **opts))
+                return ta
+
+            def one_call_per_source():
+                ta = dendropy.TreeArray(taxon_namespace=shared if shared is not None else new_ns(), **akw)
+                for s_, kd in zip(srcs, kinds):
+                    ta.read(schema=schema, **dict(s_.kw(kd), **dict({"tree_offset": k} if k else {}, **opts)))
+                return ta
+            want_ta, want_err = attempt(reference)
+            for route, fn in (("TreeArray.read_from_files(multi)", in_one_call), ("TreeArray.read x n", one_call_per_source)):
+                ta, err = attempt(fn)
+                if want_err is not None:
+                    ctx.cls("multi:treearray_reference_raises:%s" % type(want_err).__name__)
+                    ctx.check(err is not None and type(err) is type(want_err), "tree_array_over_several_sources",
+                              "C13.multi:differs:%s:error" % route, lambda: "adding the listed trees raises %s but %s gave %r; %s" % (
+                                  type(want_err).__name__, route, err, where()))
+                    continue
+                if err is not None:
+                    ctx.fail("tree_array_over_several_sources", "C13.multi:route_raises:%s:%s" % (route, type(err).__name__),
+                             "%s raised %s: %s; %s" % (route, type(err).__name__, str(err)[:300], where()))
+                    continue
+                a, b = split_rows(ta), split_rows(want_ta)
+                ctx.check(a == b, "tree_array_over_several_sources", "C13.multi:differs:%s" % route,
+                          lambda: "%s (tree_offset=%d, %d vs %d trees); %s" % (first_diff(a, b), k, a["n"], b["n"], where()))
+                ctx.cls("multi:treearray_compared")
+            # -- TreeList.read(tree_offset=k) per source (documented IndexError when a source has <= k trees) -----
+            if k and all(b - a > k for a, b in parts):
+                res, err = attempt(lambda: read_all(k=k))
+                if err is not None:
+                    ctx.fail("burn_in_per_source", "C13.multi:route_raises:TreeList.read(tree_offset):%s" % type(err).__name__,
+                             "%s: %s; %s" % (type(err).__name__, str(err)[:300], where()))
+                else:
+                    got = Obs(ctx, res[0], "TreeList.read(tree_offset) x n")
+                    want = [o for a, b in parts for o in ref.trees[a + k:b]]
+                    ctx.check(got.trees == want, "burn_in_per_source", "C13.multi:differs:TreeList.read(tree_offset)",
+                              lambda: "%d trees instead of %d; %s" % (len(got.trees), len(want), where()))
+            if len(ref.trees) >= 2:
+                ctx.nontrivial(["multi", [d["text"] for d in docs_], sorted(opts.items()), plan["shared"], kinds, k])
+            ctx.sample("multi:%s" % schema, {"texts": [d["text"] for d in docs_], "opts": opts, "kinds": kinds, "tree_offset": k})
+    finally:
+        for s_ in srcs:
+            s_.close()
+
+
+SUBCHECKS = {"docs": check_case, "rich": check_case, "nexml": check_case, "numeric": check_case, "multi": check_multi}
 
 
 def run(ctx):
@@ -958,3 +1175,4 @@ def run(ctx):
     runner.run_given(ctx, "docs", doc_cases(large=not quick), check_case, tot["docs"] // n)
     runner.run_given(ctx, "rich", rich_cases(large=not quick), check_case, tot["rich"] // n)
     runner.run_given(ctx, "numeric", numeric_cases(large=not quick), check_case, tot["numeric"] // n)
+    runner.run_given(ctx, "multi", multi_cases(large=not quick), check_multi, tot["multi"] // n)
